@@ -1,5 +1,5 @@
 From Coq Require Import Extraction ExtrOcamlBasic.
-From Rumqtt Require Import Client.State4 Client.State4Orig Client.Run4 Client.State5 Client.State5Orig.
+From Rumqtt Require Import Client.State4 Client.State4Orig Client.Run4 Client.State5 Client.State5Orig Client.Loop.
 Extraction Language OCaml.
 Definition v4_init := State4.init.
 Definition v4_step := State4.step.
@@ -16,4 +16,17 @@ Definition v5_step_orig := State5Orig.Orig.step5.
 Definition v5_drain := State5.drain5.
 Definition v5_inflight := State5.s5_inflight.
 Definition v5_collision := State5.s5_collision.
-Extraction "client_model.ml" v4_init v4_step v4_step_orig v4_k18 v4_k19 v4_contract v4_drain v4_inflight v4_collision v5_init v5_step v5_step_orig v5_drain v5_inflight v5_collision.
+Definition l_init := Loop.linit.
+Definition l_step := Loop.lstep.
+Definition l_step_orig := Loop.lstep_orig.
+Definition l_take_enabled := Loop.take_enabled.
+Definition l_take_enabled_orig := Loop.take_enabled_orig.
+Definition l_clean := Loop.loop_clean.
+Definition l_clean_orig := Loop.loop_clean_orig.
+Definition l_st := Loop.st.
+Definition l_pending := Loop.pending.
+Definition l_connected := Loop.connected.
+Definition l_wire := Loop.wire.
+Definition l_yielded := Loop.yielded.
+Definition v4_events := State4.events.
+Extraction "client_model.ml" v4_init v4_step v4_step_orig v4_k18 v4_k19 v4_contract v4_drain v4_inflight v4_collision v5_init v5_step v5_step_orig v5_drain v5_inflight v5_collision l_init l_step l_step_orig l_take_enabled l_take_enabled_orig l_clean l_clean_orig l_st l_pending l_connected l_wire l_yielded v4_events.
